@@ -519,5 +519,16 @@ func DischargeAll(obls []*Obligation, workdir string, timeoutS int, par int, see
 		}(o)
 	}
 	wg.Wait()
+	// a solver that could not run at all (fork failure / killed under memory pressure on a loaded machine) leaves "error":
+	// that says nothing about the obligation - those are tried again, one at a time, after the parallel phase
+	for _, o := range obls {
+		if o.Static || o.Cover {
+			continue
+		}
+		for try := 0; try < 3 && o.Result == "error" && !strings.Contains(o.Model, "line "); try++ {
+			time.Sleep(time.Duration(500*(try+1)) * time.Millisecond)
+			o.Discharge(workdir, timeoutS, true, seed+try)
+		}
+	}
 	sort.SliceStable(obls, func(i, j int) bool { return obls[i].Name < obls[j].Name })
 }
